@@ -54,6 +54,9 @@ fn main() {
         "C16" => props::c03::run_prop(&a, "C16", 16),
         "C01" => props::c01::run(&a),
         "C08" => props::c08::run(&a),
+        "C05" => props::c05::run_prop(&a, "C05", 5),
+        "C06" => props::c05::run_prop(&a, "C06", 6),
+        "C07" => props::c05::run_prop(&a, "C07", 7),
         "C04" => props::c01::run_prop(&a, "C04", 4),
         "C09" => props::c09::run(&a),
         "C11" => props::c11::run(&a),
